@@ -54,7 +54,15 @@ func (s *vfC18SrvConn) Read(b []byte) (int, error) {
 func (s *vfC18SrvConn) Close() error {
 	n := s.closeCalls.Add(1)
 	if n == 1 {
-		s.c.port.log.Add("srv_close", s.c.name(), 0, nil)
+		s.c.mu.Lock()
+		byOwner := s.c.ownerClosing
+		s.c.firstCloseNotByOwner = !byOwner
+		s.c.mu.Unlock()
+		kind := "srv_close"
+		if byOwner {
+			kind = "srv_close_by_handler"
+		}
+		s.c.port.log.Add(kind, s.c.name(), 0, nil)
 	}
 	return s.Conn.Close()
 }
@@ -78,8 +86,16 @@ type vfC18Conn struct {
 	gotDone   bool     // handler read up to EOF / error
 	teardown  bool     // created by the harness teardown (poke), not by the enumerated schedule
 	cliGot    []byte   // what the client read back (only with opt.drain)
-	connSeq   int      // log position of the connect event
-	gen       int      // generation of the base listener it was offered to
+	// ownership: a harness handler (p.handle) sets ownerClosing before it closes the conn;
+	// firstCloseNotByOwner records whether the first Close() on the server end came from
+	// somebody else (i.e. the mux). harnessOwned: delivered to p.handle (not to a real server).
+	ownerClosing         bool
+	firstCloseNotByOwner bool
+	harnessOwned         bool
+	ackGot               bool   // handler's write after the full stream reached the client side
+	writeErr             string // handler's write failed
+	connSeq              int    // log position of the connect event
+	gen                  int    // generation of the base listener it was offered to
 }
 
 // vfC18ConnOpt: optional client behaviour.
@@ -91,6 +107,10 @@ type vfC18ConnOpt struct {
 	// full close lets the relay legitimately tear the tunnel down before it has forwarded
 	// everything). The connection is closed by shutdown().
 	keepOpen bool
+	// pauseAfter/resume: after pauseAfter bytes the client waits for resume to be closed
+	// before it sends the rest (a session that is still in use while things happen to the mux)
+	pauseAfter int
+	resume     chan struct{}
 }
 
 func (c *vfC18Conn) name() string { return fmt.Sprintf("c%d", c.id) }
@@ -206,6 +226,8 @@ type vfC18Port struct {
 	gen   int
 	// holdAccept: bases created from now on get an Accept return gate
 	readSizes func(i int) int // handler read-size pattern
+	// ackWhenComplete: handlers write "ack:<conn>" once they have read the whole stream
+	ackWhenComplete bool
 
 	gmu        sync.Mutex
 	deleteGate chan struct{}
@@ -401,6 +423,13 @@ func (p *vfC18Port) connectOpt(first int, payloadLen int, chunks func(total int)
 			return
 		}
 		data := c.data
+		if opt.resume != nil && opt.pauseAfter > 0 && opt.pauseAfter < len(data) {
+			if _, err := cli.Write(data[:opt.pauseAfter]); err != nil {
+				return
+			}
+			data = data[opt.pauseAfter:]
+			<-opt.resume
+		}
 		var sizes []int
 		if chunks != nil {
 			sizes = chunks(len(data))
@@ -452,6 +481,7 @@ func (p *vfC18Port) acceptor(kind string, ln net.Listener) {
 			}
 			c.mu.Lock()
 			c.delivered = append(c.delivered, kind)
+			c.harnessOwned = true
 			c.mu.Unlock()
 			p.live.Add(1)
 			go func() {
@@ -499,6 +529,7 @@ func (p *vfC18Port) byName(name string) *vfC18Conn {
 
 func (p *vfC18Port) handle(c *vfC18Conn, conn net.Conn) {
 	var got []byte
+	acked := false
 	buf := make([]byte, 32768)
 	// a zero-length read must neither consume the peeked byte nor fail
 	if n, err := conn.Read(buf[:0]); n != 0 || err != nil {
@@ -519,6 +550,15 @@ func (p *vfC18Port) handle(c *vfC18Conn, conn net.Conn) {
 		}
 		n, err := conn.Read(buf[:sz])
 		got = append(got, buf[:n]...)
+		if p.ackWhenComplete && !acked && len(got) >= len(c.data) {
+			// the session is still usable in the other direction too
+			acked = true
+			if _, werr := conn.Write([]byte("ack:" + c.name())); werr != nil {
+				c.mu.Lock()
+				c.writeErr = werr.Error()
+				c.mu.Unlock()
+			}
+		}
 		if err != nil {
 			break
 		}
@@ -529,6 +569,7 @@ func (p *vfC18Port) handle(c *vfC18Conn, conn net.Conn) {
 	c.mu.Lock()
 	c.got = got
 	c.gotDone = true
+	c.ownerClosing = true
 	c.mu.Unlock()
 	_ = conn.Close()
 }
@@ -591,6 +632,13 @@ func (p *vfC18Port) judge() (vs []vfC18Verdict, delivered, closedByMux, refused,
 				vs = append(vs, vfC18Verdict{"mux:conn-delivered-without-first-byte", fmt.Sprintf("%s sent nothing but was handed to the %s handler", c.name(), dl[0]), c.name()})
 			} else if dl[0] != want {
 				vs = append(vs, vfC18Verdict{"mux:conn-routed-to-wrong-handler", fmt.Sprintf("%s first byte %#02x was handed to the %s handler, want %s", c.name(), c.first, dl[0], want), c.name()})
+			}
+			c.mu.Lock()
+			stolen := c.harnessOwned && c.firstCloseNotByOwner
+			c.mu.Unlock()
+			if stolen {
+				vs = append(vs, vfC18Verdict{"mux:delivered-conn-closed-by-mux",
+					fmt.Sprintf("%s (first byte %#02x) was returned by the %s sub-listener's Accept and then Close() was called on it by somebody other than its handler (the handler had read %d of %d bytes)", c.name(), c.first, dl[0], len(got), len(c.data)), c.name()})
 			}
 			if gotDone && c.first >= 0 {
 				bytesChecked += len(got)
